@@ -970,7 +970,9 @@ func (s *State) evalForInteger(fe *ast.ForExpression, start *int64, end int64, n
 	var newBody ast.Node
 	var register object.Register
 	newBody = fe.Body
-	if name != "" && !s.NoReg && s.env.HasRegisters() {
+	// A constant (all caps) name goes through the checking setter below, like with registers disabled:
+	// a register would shadow the constant inside the body.
+	if name != "" && !s.NoReg && s.env.HasRegisters() && !object.Constant(name) {
 		var ok bool
 		env := s.env
 		register, newBody, ok = setupRegister(env, name, int64(startValue), fe.Body)
